@@ -29,7 +29,33 @@ type Opts struct {
 	GroupBias int
 	// ManySteps: one document in ManySteps gets 48-70 top-level steps (0: never)
 	ManySteps int
-	Hist      func(string)
+	// ManyUnknown: one document in ManyUnknown has 21-45 steps in one sequence that each fall back to an unknown step (0: never)
+	ManyUnknown int
+	// DeepNesting: one document in DeepNesting carries, under an unknown key, a chain of 28-80 nested mappings and
+	// sequences whose keys are not in sorted order (0: never)
+	DeepNesting int
+	Hist        func(string)
+}
+
+// UnknownScalarSteps: scalar step entries that match no rule (case and surrounding blanks are part of the entry).
+var UnknownScalarSteps = []string{"Deploy-To-Production", " notify-oncall ", "Wait", "WAIT", "waiter2", "Smoke Test", "command", "trigger", "group", "script", "wait "}
+
+// DeepChain: n levels, alternating a three-key mapping (zeta, alpha, next — document order is not sorted order) and a
+// one-element sequence; the innermost value is a scalar.
+func DeepChain(n int) any {
+	var v any = "bottom"
+	for i := 0; i < n; i++ {
+		if i%3 == 2 {
+			v = []any{v}
+			continue
+		}
+		m := ordered.NewMap[string, any](3)
+		m.Set("zeta", i)
+		m.Set("alpha", "a")
+		m.Set("next", v)
+		v = m
+	}
+	return v
 }
 
 func (o *Opts) hist(k string) {
@@ -58,7 +84,9 @@ var extraKeys = []string{"agents", "retry", "timeout_in_minutes", "soft_fail", "
 var AdversarialKeys = []string{"", "<<", "1", "true", "yes", "~", "0x1f", "Key", "KEY", "Label", "steps ", "name", "id", "identifier", "commands", "command", "null", "3.5", "a b", "é",
 	"True", "TRUE", "False", "FALSE", "Null", "NULL", "Yes", "ON", "Off",
 	// integer spellings at and beyond the int64 boundary (a render style writes some of them unquoted, as integer keys)
-	"9223372036854775807", "9223372036854775808", "18446744073709551615", "0xFFFFFFFFFFFFFFFF", "18446744073709551616", "010", "0o17"}
+	"9223372036854775807", "9223372036854775808", "18446744073709551615", "0xFFFFFFFFFFFFFFFE", "18446744073709551616", "010", "0o17"}
+
+// (no two spellings of one integer in the pool: written unquoted they would be one key twice in a mapping)
 
 // ControlKeys: keys carrying control characters and non-printable runes (legal in quoted YAML / JSON escapes);
 // only for properties whose domain is every byte string.
@@ -588,6 +616,10 @@ func (o *Opts) Step(depth int) any {
 		return m
 	case 6:
 		o.hist("step.unknown")
+		if r.Intn(4) == 0 {
+			o.hist("step.unknown-scalar")
+			return core.Pick(r, UnknownScalarSteps)
+		}
 		if r.Intn(3) == 0 {
 			m := ordered.NewMap[string, any](2)
 			m.Set("type", core.Pick(r, []string{"deploy", "future", ""}))
@@ -633,9 +665,37 @@ func (o *Opts) Pipeline() any {
 			ss[i] = o.Step(0)
 		}
 		m.Set("steps", ss)
+	} else if o.ManyUnknown > 0 && r.Intn(o.ManyUnknown) == 0 {
+		// more fallbacks in one sequence than any per-sequence limit one might think of
+		o.hist("top.many-unknown-steps")
+		ss := o.Steps(0, 4)
+		for i := 21 + r.Intn(25); i > 0; i-- {
+			if r.Intn(3) == 0 {
+				ss = append(ss, ordered.MapFromItems(ordered.TupleSA{Key: "zz_no_kind_key", Value: i}))
+			} else {
+				ss = append(ss, core.Pick(r, UnknownScalarSteps))
+			}
+			if r.Intn(6) == 0 {
+				ss = append(ss, o.Step(1))
+			}
+		}
+		m.Set("steps", ss)
 	} else if r.Intn(12) != 0 {
 		m.Set("steps", o.Steps(0, 6))
 	}
 	o.addExtras(m, r.Intn(3))
+	if o.DeepNesting > 0 && r.Intn(o.DeepNesting) == 0 {
+		o.hist("top.deep-nesting")
+		depth := 28 + r.Intn(53)
+		if ss, ok := m.Get("steps"); ok {
+			if l, ok := ss.([]any); ok && len(l) > 0 {
+				if sm, ok := l[0].(*ordered.MapSA); ok && r.Bool() {
+					sm.Set("zz_deep", DeepChain(depth)) // inside a step's unknown field
+					return shuffleKeys(r, m)
+				}
+			}
+		}
+		m.Set("zz_deep", DeepChain(depth))
+	}
 	return shuffleKeys(r, m)
 }
